@@ -58,6 +58,23 @@ class Models:
                 return a[0]
             if "from_str" in c and a and isinstance(a[0], str):
                 return Opaque("fmt:" + a[0])
+            if "Arguments" in c and a:
+                t = deref(a[0])
+                raw = None
+                if isinstance(t, (bytes, bytearray)):
+                    raw = bytes(t)
+                elif isinstance(t, str):
+                    raw = t.encode("latin1", "replace")
+                elif hasattr(t, "items") and all(isinstance(x, int) for x in t.items):
+                    raw = bytes(x & 255 for x in t.items)
+                elif hasattr(t, "data") and isinstance(getattr(t, "data"), (bytes, list)):
+                    raw = bytes(t.data)
+                if isinstance(t, Opaque) and str(t.what).startswith("bytes:"):
+                    return Opaque("fmt:" + str(t.what)[6:])
+                if raw is not None:
+                    import re as _re
+                    return Opaque("fmt:" + " ".join(w.decode() for w in _re.findall(rb"[\x20-\x7e]{3,}", raw)))
+                return Opaque("fmt:" + type(t).__name__)
             return Opaque("fmt")
 
         @R(r"^<T as Into<String>>::into$|^<&str as Into<String>>::into$|^<str as ToString>::to_string$|^<String as From<&str>>::from$|^<T as Into<U>>::into$|^<str as ToOwned>::to_owned$|^String::as_str$|^<String as Deref>::deref$")
